@@ -287,6 +287,7 @@ func checkC17(c *core.Ctx) {
 			}
 			r7.Check(bad == "", key, p.Pos(fn.Pos()), "every return is a freshly built flow", "returns "+bad+" instead of a flow built from the layer's current address fields: after the layer object is decoded into again the accessor can report the previous packet's flow")
 		}
+		flowComposition(c, c.Rule("R17.9", "T", "per-layer flow accessors build the flow with an endpoint type fixed by the layer (a constant), never one chosen from the address value"))
 		if nAcc < 8 {
 			r7.Missing("layers/flow accessors", fmt.Sprintf("only %d flow accessors found", nAcc))
 		}
@@ -655,6 +656,7 @@ func checkC17(c *core.Ctx) {
 
 	// ---- R17.6 port slices
 	checkPortSlices(c, r6)
+	noBufferViewInFlowFields(c, c.Rule("R17.10", "T", "no slice of a SerializeBuffer is stored into a layer field a flow accessor reads: the buffer's memory is rewritten by the next serialization"))
 }
 
 // retTerm follows a named result spilled to an alloc: the term of the last store.
@@ -1072,4 +1074,206 @@ func findDataSlice(v ssa.Value, data *ssa.Parameter, depth int) string {
 		}
 	}
 	return ""
+}
+
+// flowComposition (R17.9): the flow a layer reports must carry exactly the
+// layer's addresses, so its endpoint type is a property of the layer, not of
+// the address bytes.  Every value returned by a *Flow accessor is resolved to
+// NewFlow(K, …) with constant K, to FlowFromEndpoints(NewEndpoint(K, …),
+// NewEndpoint(K, …)) with the same constant, to a package-level flow, or to
+// another accessor; an endpoint constructor that picks the type from the value
+// (NewIPEndpoint: To4 first) re-types IPv4-mapped IPv6 addresses and makes the
+// join fail when only one side is mapped.
+func flowComposition(c *core.Ctx, r *core.Rule) {
+	p := c.P
+	nf, ffe, ne := p.Func("", "NewFlow"), p.Func("", "FlowFromEndpoints"), p.Func("", "NewEndpoint")
+	n := 0
+	for _, fn := range pkgFunctions(p, "layers") {
+		if fn.Signature.Recv() == nil || fn.Signature.Results().Len() != 1 || !core.NamedIs(fn.Signature.Results().At(0).Type(), "Flow") || !strings.HasSuffix(fn.Name(), "Flow") {
+			continue
+		}
+		n++
+		key := core.FnKey(fn) + "/composition"
+		bad, und := "", ""
+		var check func(v ssa.Value, d int)
+		endpointType := func(v ssa.Value) (string, string) {
+			cl, ok := v.(*ssa.Call)
+			if !ok || cl.Call.StaticCallee() == nil {
+				return "", "an endpoint that is not built by a constructor call"
+			}
+			f := cl.Call.StaticCallee()
+			if f != ne {
+				return "", "an endpoint built by " + f.Name() + ", which chooses the endpoint type from the address value"
+			}
+			k, ok := layerTypeName(cl.Call.Args[0])
+			if !ok {
+				return "", "an endpoint whose type is not a constant or registered endpoint type of the package"
+			}
+			return k, ""
+		}
+		check = func(v ssa.Value, d int) {
+			if d > 4 || bad != "" {
+				return
+			}
+			switch x := v.(type) {
+			case *ssa.Phi:
+				for _, e := range x.Edges {
+					check(e, d+1)
+				}
+			case *ssa.UnOp:
+				if _, isG := x.X.(*ssa.Global); !isG {
+					und = "value loaded from memory"
+				}
+			case *ssa.Extract:
+				cl, ok := x.Tuple.(*ssa.Call)
+				if !ok || cl.Call.StaticCallee() != ffe {
+					und = "tuple result of an unrecognised call"
+					return
+				}
+				t1, b1 := endpointType(cl.Call.Args[0])
+				t2, b2 := endpointType(cl.Call.Args[1])
+				switch {
+				case b1 != "":
+					bad = "FlowFromEndpoints over " + b1
+				case b2 != "":
+					bad = "FlowFromEndpoints over " + b2
+				case t1 != t2:
+					bad = "FlowFromEndpoints over endpoints of different types"
+				}
+			case *ssa.Call:
+				f := x.Call.StaticCallee()
+				switch {
+				case f == nf:
+					if _, ok := layerTypeName(x.Call.Args[0]); !ok {
+						bad = "NewFlow with an endpoint type that is not a constant or registered endpoint type of the package"
+					}
+				case f != nil && f.Signature.Recv() != nil && strings.HasSuffix(f.Name(), "Flow"):
+					// another accessor, checked on its own
+				default:
+					und = "flow produced by an unrecognised call"
+				}
+			default:
+				und = "unrecognised flow value"
+			}
+		}
+		for _, ret := range core.Returns(fn) {
+			check(core.RetOperand(ret, 0), 0)
+		}
+		switch {
+		case bad != "":
+			r.Violate(key, p.Pos(fn.Pos()), "the accessor returns "+bad+": the reported flow no longer carries exactly this layer's source and destination addresses with the layer's endpoint type (an IPv4-mapped IPv6 address becomes a 4-byte IPv4 endpoint, and a join of differently typed endpoints fails, leaving the zero flow for both directions)", nil)
+		case und != "":
+			r.Undecided(key, p.Pos(fn.Pos()), und)
+		default:
+			r.OK(key, p.Pos(fn.Pos()), "flow type is a constant of the layer")
+		}
+	}
+	if n < 8 {
+		r.Missing("layers/flow accessors", fmt.Sprintf("only %d flow accessors found", n))
+	}
+}
+
+// layerTypeName names an endpoint type that does not depend on packet bytes:
+// a constant or a package-level variable (the registered Endpoint* types).
+func layerTypeName(v ssa.Value) (string, bool) {
+	switch x := v.(type) {
+	case *ssa.Const:
+		return x.Value.ExactString(), true
+	case *ssa.UnOp:
+		if g, ok := x.X.(*ssa.Global); ok && x.Op == token.MUL {
+			return g.Name(), true
+		}
+	}
+	return "", false
+}
+
+// noBufferViewInFlowFields (R17.10): the slice fields the per-layer flow
+// accessors read (addresses, private port slices) must keep the bytes of the
+// packet the layer describes.  Storing a window of a SerializeBuffer (the
+// result of PrependBytes/AppendBytes/Bytes) into such a field makes the
+// reported flow change when the buffer is cleared and reused.
+func noBufferViewInFlowFields(c *core.Ctx, r *core.Rule) {
+	p := c.P
+	// fields read by flow accessors
+	flowFields := map[*types.Var]bool{}
+	for _, fn := range pkgFunctions(p, "layers") {
+		if fn.Signature.Recv() == nil || fn.Signature.Results().Len() != 1 || !core.NamedIs(fn.Signature.Results().At(0).Type(), "Flow") || !strings.HasSuffix(fn.Name(), "Flow") {
+			continue
+		}
+		core.Instrs(fn, func(ins ssa.Instruction) {
+			if fa, ok := ins.(*ssa.FieldAddr); ok {
+				if f := core.FieldOfAddr(fa); f != nil {
+					if _, isSl := f.Type().Underlying().(*types.Slice); isSl {
+						flowFields[f] = true
+					}
+				}
+			}
+		})
+	}
+	c.Counts["flow_slice_fields"] = len(flowFields)
+	if len(flowFields) < 8 {
+		r.Missing("layers/flow slice fields", fmt.Sprintf("only %d found", len(flowFields)))
+		return
+	}
+	var fromView func(v ssa.Value, d int) bool
+	fromView = func(v ssa.Value, d int) bool {
+		if d > 8 {
+			return false
+		}
+		switch x := v.(type) {
+		case *ssa.Slice:
+			return fromView(x.X, d+1)
+		case *ssa.ChangeType:
+			return fromView(x.X, d+1)
+		case *ssa.Convert:
+			return fromView(x.X, d+1)
+		case *ssa.Phi:
+			for _, e := range x.Edges {
+				if fromView(e, d+1) {
+					return true
+				}
+			}
+		case *ssa.Extract:
+			if cl, ok := x.Tuple.(*ssa.Call); ok && x.Index == 0 {
+				return fromView(cl, d+1)
+			}
+		case *ssa.Call:
+			if x.Call.IsInvoke() && core.NamedIs(x.Call.Value.Type(), "SerializeBuffer") {
+				switch x.Call.Method.Name() {
+				case "PrependBytes", "AppendBytes", "Bytes":
+					return true
+				}
+			}
+		}
+		return false
+	}
+	nStores := 0
+	for _, fn := range pkgFunctions(p, "layers") {
+		k := 0
+		core.Instrs(fn, func(ins ssa.Instruction) {
+			st, ok := ins.(*ssa.Store)
+			if !ok {
+				return
+			}
+			fa, ok := st.Addr.(*ssa.FieldAddr)
+			if !ok {
+				return
+			}
+			f := core.FieldOfAddr(fa)
+			if f == nil || !flowFields[f] {
+				return
+			}
+			nStores++
+			if fromView(st.Val, 0) {
+				k++
+				r.Violate(fmt.Sprintf("%s/buffer-view-stored:%s#%d", core.FnKey(fn), f.Name(), k), p.InstrPos(st), "field "+f.Name()+", from which the layer's flow is built, is set to a window of the SerializeBuffer: once the buffer is cleared and reused for another packet the layer reports that packet's bytes as its own source/destination", nil)
+			}
+		})
+	}
+	c.Counts["flow_field_stores"] = nStores
+	if nStores < 15 {
+		r.Missing("layers/flow field stores", fmt.Sprintf("only %d stores found", nStores))
+	} else {
+		r.OK("layers/flow-fields-not-buffer-views", "", fmt.Sprintf("%d stores into %d flow-source slice fields, none of a SerializeBuffer window", nStores, len(flowFields)))
+	}
 }
